@@ -3,10 +3,30 @@ SPEC = dict(
     test="TestVerifC10",
     level="exploration",
     workers=16,
-    deadline={"quick": 150, "thorough": 2100},
-    rule="TODO",
-    assumptions=[],
+    deadline={"quick": 240, "thorough": 2100},
+    # every worker is a single-threaded explorer; 2 Ps keep the index's own helper goroutines cheap
+    # (the persisted index caches are written with one file per P on every close)
+    env={"GOMAXPROCS": "2"},
+    rule="(a) histories: every no-op-pruned sequence over {insert k (8 series keys), flush, clear caches, restart, reopen} "
+         "of length 4 (quick) / 5 on all keys + 6 on 5 keys (thorough), each on a fresh index, id+listing oracle after every step, "
+         "one-atom predicate sweep on every state (quick) / every final state (thorough); non-trivial = contains an insert followed "
+         "by a flush/clear/restart/reopen; (b) predicates: every tree of <=2 (quick) / <=3 (thorough) atoms over "
+         "{host,region}x{=,!=,=~,!~}x{a,b,'',/a/,/^a$/,/a|b/,/[ab]/,/a.*/,/.*/,/^$/} (+5 extension atoms in <=2-atom trees) with AND/OR/"
+         "parentheses on 5 fixed index states x 2 measurements through SearchSeriesByTableAndCond, SearchSeriesIterator, "
+         "SearchTagValues, SearchSeriesKeys, SeriesCardinality; non-trivial = expected result is a proper non-empty subset "
+         "of the visible series; distinct_nontrivial counts distinct (visible set, tree) pairs plus distinct non-trivial histories",
+    assumptions=[
+        "background raw-item flusher and part mergers of the mergeset table are stopped after every open (Table.StopMergeAndFlusher), "
+        "so visibility and part layout are decided by the explored operations only",
+        "index cache sizes set to 32 MB by config.SetIndexConfig (sizes only; persistence, compression, bloom filter = defaults)",
+        "conditions reach the index as SHOW statements send them (as parsed) for SearchSeriesKeys/SearchTagValues/SeriesCardinality/"
+        "SearchSeriesByTableAndCond and as SELECT sends them (after SelectStatement.RewriteRegexConditions) for SearchSeriesIterator",
+        "a restart gives the index a logical clock one higher and re-seeds the sequence counter; a reopen keeps both",
+        "series are inserted as influx.Row values (sorted tags, UnmarshalIndexKeys); the line-protocol parser drops empty-valued tags, "
+        "so an empty tag value is represented by the series lacking the tag",
+    ],
 )
 
+# Set CLAIMED = True once the check is clean on the unchanged tree (exit 0, KNOWN-FINDING lines allowed).
 CLAIMED = False
 MANIFEST = dict(level="exploration", engine="seqx", technique="TODO", text="TODO", note="TODO")
